@@ -17,6 +17,9 @@ import ast
 from .ratfun import Inconclusive
 
 
+COMPARED = set()
+
+
 class Token(object):
     """Abstract coefficient.  ``cls`` in {"one", "minus_one", "zero", "generic",
     "stream"}; ``text`` is what str() of it pastes into generated code."""
@@ -37,9 +40,12 @@ class Token(object):
             raise Inconclusive("comparison of a Stream coefficient with %r" % (other,))
         if not isinstance(other, (int, float)):
             raise Inconclusive("comparison of a coefficient with %r" % (other,))
+        COMPARED.add(other)         # the literals a coefficient is compared with partition its values into classes
+        if self.cls == "const":
+            return self.value == other
         val = {"one": 1, "minus_one": -1, "zero": 0}.get(self.cls)
         if val is None:
-            return False            # generic: some value outside {0, 1, -1}
+            return False            # generic: some value the code does not compare with
         return val == other
 
     def __repr__(self):
